@@ -29,10 +29,10 @@ class _SimpleCallQueue(object):
             except:
                 log.err()
         self._in_turn = False
-        if not self._events:
-            observers, self._flushObservers = self._flushObservers, []
-            for o in observers:
-                o.callback(None)
+        # an observer's callback may enqueue new events: the remaining
+        # observers then wait for the turn which that scheduled
+        while self._flushObservers and not self._events:
+            self._flushObservers.pop(0).callback(None)
 
     def flush(self):
         """Return a Deferred that will fire (with None) when the call queue
